@@ -180,3 +180,73 @@ func VerifC16_step() { vC16Step(1<<53 - 1) }
 
 // amounts up to the whole token supply
 func VerifC16_stepSupply() { vC16Step(4000000000000000000) }
+
+// VerifC16_schedule: the linear-schedule clause, on a concrete time grid (so that the schedule
+// is linear in the amounts). One destination with an arbitrary amount and an arbitrary vested
+// part that is NOT ahead of the line at its last payment time (the schedule invariant); its
+// last payment (Move) and its last visit (Last, later than Move after a trigger that moved
+// nothing) lie on the grid; one trigger / unlock at a grid time. Afterwards the vested part is
+// still not ahead of the line at the transaction time (up to one base unit of rounding).
+func VerifC16_schedule() {
+	vsc := &VestingSmartContract{SmartContract: sci.NewSC(ADDRESS)}
+	const start, end = int64(10000), int64(11000) // 1000 s
+	grid := []int64{start, start + 99, start + 250, start + 500, start + 901, end}
+	t := &transaction.Transaction{}
+	byOwner := sym.Bool("byOwner")
+	t.ClientID = vC16D1
+	if byOwner {
+		t.ClientID = vC16Owner
+	}
+	t.ToClientID = ADDRESS
+	t.Hash = vC16Hash
+	b := &block.Block{}
+	balances, trie := symstate.Balances(b, t)
+	vp := newVestingPool()
+	vp.ID = poolKey(vsc.ID, "pool1")
+	vp.ClientID = vC16Owner
+	vp.StartTime, vp.ExpireAt = common.Timestamp(start), common.Timestamp(end)
+	d := &destination{ID: vC16D1}
+	d.Amount = currency.Coin(sym.U64("amount"))
+	d.Vested = currency.Coin(sym.U64("vested"))
+	mi := sym.Choice("lastMove", 0, len(grid)-2)
+	li := sym.Choice("lastVisit", mi, len(grid)-2)
+	ni := sym.Choice("now", li, len(grid)-1)
+	d.Move, d.Last = common.Timestamp(grid[mi]), common.Timestamp(grid[li])
+	now := grid[ni]
+	t.CreationDate = common.Timestamp(now)
+	sym.Assume(d.Amount < 1<<50 && d.Vested <= d.Amount)
+	// schedule invariant at the last payment: Vested * duration <= Amount * (Move - start)
+	sym.Assume(sym.LinLe([]uint64{uint64(end - start)}, []uint64{uint64(d.Vested)}, []uint64{uint64(grid[mi] - start)}, []uint64{uint64(d.Amount)}))
+	vp.Destinations = append(vp.Destinations, d)
+	vp.Balance = d.Amount - d.Vested + currency.Coin(sym.U64("excess"))
+	sym.Assume(vp.Balance < 1<<60)
+	if err := vp.save(balances); err != nil {
+		panic(err)
+	}
+	input := []byte(`{"pool_id":"` + vp.ID + `"}`)
+	var err error
+	if byOwner {
+		_, err = vsc.trigger(t, input, balances)
+	} else {
+		_, err = vsc.unlock(t, input, balances)
+	}
+	if err != nil {
+		sym.Cover("nothing-to-vest")
+		return
+	}
+	post := vC16Load(trie, vp.ID)
+	if post == nil || len(post.Destinations) != 1 {
+		sym.Fail("pool stored")
+		return
+	}
+	pd := post.Destinations[0]
+	if li > mi {
+		sym.Cover("visited-after-last-payment")
+	}
+	sym.Cover("vested-on-grid")
+	// Vested' * duration <= Amount * (now - start) + duration   (one base unit of rounding)
+	sym.Assert(sym.LinLe([]uint64{uint64(end - start)}, []uint64{uint64(pd.Vested)}, []uint64{uint64(now - start), uint64(end - start)}, []uint64{uint64(pd.Amount), 1}),
+		"vested tokens never run ahead of the linear schedule between start and expiry")
+	// and the schedule invariant is re-established at the new last payment time
+	sym.Assert(pd.Move <= common.Timestamp(now) && pd.Last == common.Timestamp(now), "the last visit time is the transaction time")
+}
